@@ -2,7 +2,7 @@ package spec
 
 // C19Case: a program of Client life-cycle calls.
 type C19Case struct {
-	Mode    string     `json:"mode"`    // ok | fail-line | fail-timeout | fail-exit | prelaunch-fail | proc-ok | proc-fail | cmd-ok | cmd-fail
+	Mode    string     `json:"mode"`    // ok | ok-nolisten | ok-latelisten (step Listen brings the server up) | fail-line | fail-timeout | fail-exit | prelaunch-fail | proc-ok | proc-fail | cmd-ok | cmd-fail
 	Threads [][]string `json:"threads"` // ops per goroutine: Start Client Protocol ReattachConfig ID Exited Kill
 	Jitter  bool       `json:"jitter"`
 }
